@@ -291,6 +291,15 @@ theorem at_world_terminates (c : Cfg) (e : Env) (w : CW) (hwid : 0 < c.width) (h
     · exact h
     · exact absurd h hno
 
+/-- **Nothing regresses in a closed run.** Whatever the component and its honest neighbours do, in
+whatever order — idle ticks, refused deliveries and empty retrievals included — the world measure
+never increases. Hence an arbitrary closed run (no new access, no new control command) contains at
+most `wmu w` productive moves, and by `at_every_access_answered` one more is enabled as long as an
+accepted access is unanswered: every fair closed run ends with all accepted accesses answered. -/
+theorem at_world_monotone (c : Cfg) (e : Env) (w : CW) (os : List HOp) (h : ∀ o ∈ os, o.internal = true) :
+    wmu (hrun c e w os) ≤ wmu w :=
+  wmu_monotone_run c e os w h
+
 /-- **The property, end to end.** From any reachable world the honest neighbours and the awake
 component can complete the work, and then every access accepted since the last flush has exactly
 one answer; it carries the access's own ID and the memory's data for a request with the access's
@@ -492,5 +501,27 @@ example :
     w.s.forwarded.map (fun l => (l.top.id, l.breq.bid, l.breq.paddr)) =
       [(2, 2, 0x100000 + 0x2000 + 0x10), (1, 1, 0x200000 + 0x1000 + 8), (0, 0, 0x100000 + 0x1000 + 4)] := by
   decide
+
+/-- the hypotheses of the closed-world theorems are met by these worlds: after `demoH1` the component
+is asleep (`no_lost_wakeup`) with a completed transaction pending (`reply_while_full_wakes`), the world is
+not settled, so `at_every_access_answered` yields a productive move -/
+example : ∃ o, o.internal = true ∧
+    wmu (hstep ⟨1, 12⟩ demoEnv (hrun ⟨1, 12⟩ demoEnv {} demoH1) o) < wmu (hrun ⟨1, 12⟩ demoEnv {} demoH1) := by
+  rcases at_every_access_answered ⟨1, 12⟩ demoEnv _ (by decide) (demo_reach demoH1) with h | h
+  · exact absurd (h.2 (by decide)) (by decide)
+  · exact h
+
+example := no_lost_wakeup ⟨1, 12⟩ demoEnv _ (by decide) (demo_reach demoH1) (by decide)
+
+example : ∃ t ∈ (hrun ⟨1, 12⟩ demoEnv {} demoH1).s.txs, t.done = true := by decide
+
+/-- the tick before the component fell asleep: awake, reports no progress, yet marks the transaction done -/
+example := tick_idle_unchanged_partial ⟨1, 12⟩ demoEnv _ (by decide) (demo_reach (demoH1.take 9))
+  (by decide) (by decide)
+
+/-- the flushing tick of `demoH2` (op 19): awake, epoch changes -/
+example := at_flush_world_step ⟨1, 12⟩ demoEnv (hrun ⟨1, 12⟩ demoEnv {} (demoH2.take 18)) (by decide) (by decide)
+
+example := at_end_to_end ⟨1, 12⟩ demoEnv _ (by decide) (demo_reach demoH2)
 
 end C16
